@@ -231,6 +231,7 @@ type BuiltTx struct {
 	AVS        *AVSTx
 	ViaForwarder bool           // sent to the gateway forwarder contract, which CALLs Precompile
 	Reverting    bool           // the forwarder reverts after the inner call
+	CallMode     string         // "static" / "delegate": the forwarder used STATICCALL / DELEGATECALL instead of CALL
 	Precompile   common.Address
 }
 
@@ -245,8 +246,12 @@ func (r *Run) ethCall(ctx sdk.Context, from Account, to common.Address, data []b
 		base = big.NewInt(0)
 	}
 	feeCap := new(big.Int).Add(new(big.Int).Mul(base, big.NewInt(2)), big.NewInt(1_000_000_000))
+	value := big.NewInt(0)
+	if bt.Value != nil {
+		value = bt.Value // preset by the caller (nested frames pass value on)
+	}
 	bz, h, err := EthTx(r.Node.App.EvmKeeper.ChainID(), from.Priv, EthTxArgs{
-		Type: 2, Nonce: nonce, To: &to, Value: big.NewInt(0), GasLimit: defaultEthGas,
+		Type: 2, Nonce: nonce, To: &to, Value: value, GasLimit: defaultEthGas,
 		GasFeeCap: feeCap, GasTipCap: big.NewInt(1), Data: data,
 	})
 	if err != nil {
@@ -254,7 +259,7 @@ func (r *Run) ethCall(ctx sdk.Context, from Account, to common.Address, data []b
 	}
 	bt.Bytes, bt.EthHash, bt.Kind, bt.Sender = bz, h, "eth", from.Addr
 	bt.GasLimit, bt.GasPrice, bt.To = defaultEthGas, feeCap, &to
-	bt.EthType, bt.EthTip, bt.EthNonce, bt.Value = 2, big.NewInt(1), nonce, big.NewInt(0)
+	bt.EthType, bt.EthTip, bt.EthNonce, bt.Value = 2, big.NewInt(1), nonce, value
 	return nil
 }
 
@@ -269,7 +274,9 @@ func (r *Run) cosmosTx(ctx sdk.Context, from Account, bt *BuiltTx, msgs ...sdk.M
 	if b := r.Node.App.FeeMarketKeeper.GetBaseFee(ctx); b != nil && b.Sign() > 0 {
 		price = sdkmath.NewIntFromBigInt(b).MulRaw(2)
 	}
-	bz, err := CosmosTx(r.W.Cfg.ChainID, from.Priv, acc.GetAccountNumber(), acc.GetSequence(), gas, price.MulRaw(int64(gas)), msgs...)
+	mut := r.txMutate
+	r.txMutate = nil
+	bz, err := CosmosTxMut(r.W.Cfg.ChainID, from.Priv, acc.GetAccountNumber(), acc.GetSequence(), gas, price.MulRaw(int64(gas)), mut, msgs...)
 	if err != nil {
 		return err
 	}
@@ -283,20 +290,44 @@ func (r *Run) cosmosTx(ctx sdk.Context, from Account, bt *BuiltTx, msgs ...sdk.M
 // M=0 any account calls the forwarder, which CALLs the precompile (contract.CallerAddress = the
 // gateway contract); M=2 the same but the forwarder REVERTs after the precompile call returned,
 // so everything the precompile did must be rolled back with the frame; M=1 an account calls the
-// precompile directly (not the gateway).
+// precompile directly (not the gateway); M=3 the forwarder STATICCALLs the precompile (a write in a
+// read-only frame: must fail without effect); M=4 the forwarder DELEGATECALLs it (the precompile
+// then sees the forwarder's own caller, an ordinary account, as its caller: not the gateway);
+// M=5 NESTED: an outer forwarder CALLs the gateway forwarder, whose frame reverts after the precompile
+// returned; the outer frame swallows the failure and returns normally, so the transaction succeeds
+// while everything done inside the reverted inner frame must be gone.
 func (r *Run) gatewayCall(ctx sdk.Context, op Op, precompile common.Address, data []byte, bt *BuiltTx) error {
 	if !r.W.Cfg.GatewayContract || op.M == 1 {
 		return r.ethCall(ctx, r.callerFor(op), precompile, data, bt)
 	}
 	flag := byte(0)
-	if op.M == 2 {
+	switch op.M {
+	case 2:
 		flag = 1
 		bt.Reverting = true
+	case 3:
+		flag = 2
+		bt.CallMode = "static"
+	case 4:
+		flag = 3
+		bt.CallMode = "delegate"
+	}
+	if op.M == 5 {
+		flag = 1
+		bt.CallMode = "nested-revert"
 	}
 	wrapped := append(common.LeftPadBytes(precompile.Bytes(), 32), common.LeftPadBytes([]byte{flag}, 32)...)
 	wrapped = append(wrapped, data...)
 	bt.ViaForwarder = true
 	bt.Precompile = precompile
+	if op.M == 5 {
+		// the outer frame passes the transaction's value on to the inner (gateway) frame, which
+		// reverts: the value must come back to the outer contract and nothing may be created
+		outer := append(common.LeftPadBytes(r.W.GatewayContract.Bytes(), 32), common.LeftPadBytes([]byte{5}, 32)...)
+		outer = append(outer, wrapped...)
+		bt.Value = big.NewInt(1_000_003)
+		return r.ethCall(ctx, r.W.Users[0], r.W.OuterContract, outer, bt)
+	}
 	return r.ethCall(ctx, r.W.Users[0], r.W.GatewayContract, wrapped, bt)
 }
 
